@@ -286,8 +286,12 @@ func (ba *casBlobAccess) Put(ctx context.Context, digest digest.Digest, b buffer
 		}
 
 		if err := b.IntoWriter(encoder); err != nil {
+			// Abort the upload. Closing byteStreamWriter would
+			// send finish_write, committing whatever has been
+			// sent so far.
+			cancel()
 			encoder.Close()
-			byteStreamWriter.Close()
+			client.CloseAndRecv()
 			return err
 		}
 
